@@ -140,12 +140,15 @@ Definition post (k : N) (sc : list scalar) (fs : list (list tree)) : option (lis
                             match body with
                             | T kb [] [[l]; ops; comps] =>
                                 if N.eqb kb kCompare then
-                                  (* only a single comparison: with a chain the thunk's arguments would all be evaluated eagerly,
-                                     whereas the source short-circuits - no law makes that shape equivalent *)
-                                  if name_is id_x l && Nat.eqb (length comps) 1 && Nat.eqb (length ops) 1 && Nat.eqb (length args) 2
-                                     && forallb (fun ic => name_is (id_y_base + N.of_nat (fst ic)) (snd ic)) (combine (seq 0 (length comps)) comps)
-                                  then match args with a :: bs => Some [T kCompare [] [[a]; ops; bs]] | [] => None end
-                                  else None
+                                  (* lambda X, Y: X op0 Y op1 c1 ... applied to (a, b): the operands of the first comparison
+                                     are evaluated up front, the remaining comparators stay inside (a chain short-circuits);
+                                     X, Y are reserved names, so they cannot occur in c1 ... *)
+                                  match comps, ps, args with
+                                  | c0 :: crest, [px; py], [a; b] =>
+                                      if name_is id_cmp_x l && name_is id_cmp_y c0 && N.eqb px id_cmp_x && N.eqb py id_cmp_y
+                                      then Some [T kCompare [] [[a]; ops; b :: crest]] else None
+                                  | _, _, _ => None
+                                  end
                                 else if N.eqb kb kBinOp then
                                   match ops, comps, ps, args with
                                   | [op], [r2], [px; py], [a; b] =>
